@@ -230,6 +230,10 @@ fn one_case_edit(inp: &Input, edit: Option<i32>, qrng: &mut Rng, out: &mut dyn W
     s.push_str(&file_block(inp.format, &inp.lines));
     let loaded = load(&inp.lines, Some(inp.n)).and_then(|mut d| match edit {
         None => Ok(d),
+        // without a truth table (n > 16) the precondition "the edit leaves the formula satisfiable"
+        // is decided by the library's own count (C02 judges that count); an edit that would make
+        // the formula unsatisfiable is outside C10/C11 and is not applied
+        Some(l) if inp.models.is_none() && guarded(|| d.execute_query(&[l])).map(|c| c == num::BigInt::from(0)).unwrap_or(true) => Ok(d),
         Some(l) => guarded(move || {
             use ddnnife::parser::intermediate_representation::ClauseApplication;
             d.prepare_and_apply_incremental_edit(vec![(vec![l], ClauseApplication::Add)]);
